@@ -407,7 +407,10 @@ fn classify_error(
             }
             if ext {
                 if let Err(m) = validate_and_divide_wild_cards(&tree, context_sets) {
-                    return if m == msg { "MissingContext".into() } else { format!("Other:{m}") };
+                    // which of several missing labels is named depends on hash-set iteration order
+                    let same_kind = m == msg
+                        || (m.ends_with("lacks evaluation context.") && msg.ends_with("lacks evaluation context."));
+                    return if same_kind { "MissingContext".into() } else { format!("Other:{m}") };
                 }
             }
         }
